@@ -34,9 +34,15 @@
     precomp <xyz> <w>         -> <xyz> | <xyz> | …      XYZ.precomp(w), 2^(w-2) entries (2 ≤ w ≤ 10)
     split <n> <bits>          -> <lo> <hi>              Number.split of a non-negative number (bits decimal ≤ 4096)
     rshx <int> <bits>         -> <word> <int>           Number.rsh_x: returned word (decimal), receiver afterwards (1 ≤ bits ≤ 62)
+    parsekey <hex|->          -> 0 | 1 <xy>             XY.ParsePubkey on ANY byte string (33 / 65 / other lengths)
+    getpub <xy> <unc>         -> <hex>                  XY.GetPublicKey into a 33-byte (unc=0) / 65-byte (unc=1) buffer
+    apibm <k> <unc>           -> false | true <hex>     BaseMultiply(k, out)        k, pub = byte strings (hex, `-` = empty)
+    apibma <pub> <k> <unc>    -> false | true <hex>     BaseMultiplyAdd(pub, k, out)
+    apimul <pub> <k> <unc>    -> false | true <hex> | panic   Multiply(pub, k, out)
 -/
 import GocoinV.Model.Group
 import GocoinV.Model.GroupNum
+import GocoinV.Model.GroupApi
 import GocoinV.Base.Proto
 open GocoinV GocoinV.C08 GocoinV.Gen.Field5x52 GocoinV.Gen
 
@@ -83,6 +89,15 @@ def bytes32? (s : String) : Option (List Nat) :=
   match Hex.decode s with
   | some b => if b.length = 32 then some (b.map (·.toNat)) else none
   | none => none
+
+def bytesAny? (s : String) : Option (List Nat) := (Hex.decode s).map fun b => b.map (·.toNat)
+
+def natBytesHex (l : List Nat) : String := Hex.encode (l.map UInt8.ofNat)
+
+def apiStr : ApiRes → String
+  | .panic => "panic"
+  | .refused => "false"
+  | .ok out => "true " ++ natBytesHex out
 
 def constByName : String → Option Nat
   | "order" => some CurveConsts.order | "halforder" => some CurveConsts.halfOrder | "p" => some CurveConsts.p
@@ -175,6 +190,22 @@ def step (_ : Unit) (toks : List String) : Unit × String :=
     | some a, some bits =>
       if bits < 1 ∨ bits > 62 then bad else let (word, rest) := rshX a bits; ((), s!"{word} {intHex rest}")
     | _, _ => bad
+  | ["parsekey", h] => match bytesAny? h with
+    | some b => match XY.parsePubkey b with
+      | some pk => ((), "1 " ++ xyStr pk) | none => ((), "0")
+    | none => bad
+  | ["getpub", x, y, i, u] => match xy? [x, y, i], bool? u with
+    | some a, some u => ((), natBytesHex (XY.getPublicKey a u))
+    | _, _ => bad
+  | ["apibm", k, u] => match bytesAny? k, bool? u with
+    | some k, some u => ((), apiStr (baseMultiply (C08.beVal k) u))
+    | _, _ => bad
+  | ["apibma", p, k, u] => match bytesAny? p, bytesAny? k, bool? u with
+    | some p, some k, some u => ((), apiStr (baseMultiplyAdd p (C08.beVal k) u))
+    | _, _, _ => bad
+  | ["apimul", p, k, u] => match bytesAny? p, bytesAny? k, bool? u with
+    | some p, some k, some u => ((), apiStr (multiply p (C08.beVal k) u))
+    | _, _, _ => bad
   | _ => bad
 
 def main : IO Unit := Proto.serve () step
